@@ -196,3 +196,28 @@ pub fn commit_of(keys: &Keys, c: &Value, bid: &dyn Fn(i64) -> Option<BlockId>) -
         signatures: sigs,
     }
 }
+
+/// Reports violations to the summary, keeping a bounded number of payloads *per class* so that a
+/// frequent (e.g. known) class can never crowd a rare one out of the summary's global cap.
+pub struct Sink {
+    per_class: HashMap<String, u64>,
+    pub cap: u64,
+}
+
+impl Sink {
+    pub fn new() -> Sink {
+        Sink { per_class: HashMap::new(), cap: 4 }
+    }
+    pub fn violation(&mut self, sum: &mut h_common::Summary, prop: &str, v: Value) {
+        let key = v.get("class").map(|c| c.to_string()).unwrap_or_default();
+        let n = self.per_class.entry(key).or_insert(0);
+        *n += 1;
+        if *n <= self.cap {
+            sum.violation(prop, v);
+        }
+    }
+    pub fn finish(&self, sum: &mut h_common::Summary) {
+        let m: serde_json::Map<String, Value> = self.per_class.iter().map(|(k, v)| (k.clone(), serde_json::json!(v))).collect();
+        sum.set("violations_by_class", Value::Object(m));
+    }
+}
